@@ -46,6 +46,12 @@ class World:
         self.late_done = False
         self.x64_ctx: list = []  # stack of (context manager, effective flag before entering)
 
+    def expected_flag(self) -> bool:
+        """What the user set: the innermost open jax.enable_x64(v) scope, else the global value."""
+        if self.x64_ctx:
+            return bool(self.x64_ctx[-1][2])
+        return bool(self.user_x64)
+
     def prog(self, pid: str) -> Any:
         from sim import programs
 
@@ -260,15 +266,24 @@ def _do_convert(w: World, op: dict, idx: int, log: EventLog, viol: list, stats: 
 
     fp_before = fingerprint(prog.fn)
     flag_before = bool(jax.config.jax_enable_x64)
-    raised: BaseException | None = None
+    # the exception object is NOT kept: whatever is only reachable from its traceback (suspended
+    # generators of context managers, half-open scopes) must be finalised before the oracle looks
+    raised: str | None = None
+    raised_is_injected = False
     E = exc_class(exc_name) if exc_name else None
     w.inj.start(k, (lambda: E(f"sim: injected fault at site {k}")) if E else None, region=tuple(fault["region"]) if (fault and "region" in fault) else None)
     try:
         to_onnx(fn, list(prog.inputs), **kw)
     except BaseException as e:  # noqa: BLE001
-        raised = e
+        raised = type(e).__name__
+        raised_is_injected = bool(E is not None and isinstance(e, E))
+        e = None  # noqa: F841
     finally:
         w.inj.stop()
+    if raised is not None and op.get("collect_after_raise", True):
+        # the caller handled the exception and let it go: reference cycles through traceback frames
+        # are what a real process frees at its next collection (the worker runs with gc disabled)
+        gc.collect()
     fired = w.inj.fired
     if k is None and raised is None and not fault:
         w.nsites[pid] = w.inj.count
@@ -287,7 +302,7 @@ def _do_convert(w: World, op: dict, idx: int, log: EventLog, viol: list, stats: 
         stats["conversions_returned"] += 1
     else:
         stats["conversions_raised"] += 1
-        if fired and not isinstance(raised, (E,)):  # type: ignore[arg-type]
+        if fired and not raised_is_injected:
             stats["fault_surfaced_as_other_exception"] += 1
 
     where = f"{fired['in']}:{fired['callee']}" if fired else (fault.get("named") if fault and "named" in fault else "nofault")
@@ -298,7 +313,7 @@ def _do_convert(w: World, op: dict, idx: int, log: EventLog, viol: list, stats: 
     d = w.ws.check()
     d = [x for x in d if x["where"] not in w.ignore]
     if d:
-        viol.append({"sig": f"C13|namespace|{tag}|where={d[0]['where']}|n={len(d)}", "cls": f"namespace|{ctx_cls}|{d[0]['where'] if len(d) < 4 else 'many'}", "detail": {"changed": d[:6], "n": len(d), "raised": type(raised).__name__ if raised else None, "site": fired}, "replay_ops": rops})
+        viol.append({"sig": f"C13|namespace|{tag}|where={d[0]['where']}|n={len(d)}", "cls": f"namespace|{ctx_cls}|{d[0]['where'] if len(d) < 4 else 'many'}", "detail": {"changed": d[:6], "n": len(d), "raised": raised, "site": fired}, "replay_ops": rops})
     flag_after = bool(jax.config.jax_enable_x64)
     if flag_after != flag_before:
         viol.append({"sig": f"C13|x64_flag|{tag}|{flag_before}->{flag_after}", "cls": f"x64_flag|{ctx_cls}", "detail": {"before": flag_before, "after": flag_after, "site": fired}, "replay_ops": rops})
@@ -307,7 +322,7 @@ def _do_convert(w: World, op: dict, idx: int, log: EventLog, viol: list, stats: 
         diffs = [(a, b) for a, b in zip(fp_before, fp_after) if a != b][:4]
         viol.append({"sig": f"C13|user_mutated|{tag}", "cls": f"user_mutated|{pid}", "detail": {"diff": diffs, "len": [len(fp_before), len(fp_after)]}, "replay_ops": rops})
     diag = {"patch_state": len(ps._PATCH_STATE), "in_fn_build": len(ps._IN_FUNCTION_BUILD.get())}
-    log.add(i=idx, op="convert", pid=pid, fault=where, exc=exc_name, k=k, fired=bool(fired), raised=type(raised).__name__ if raised else None, ns=len(d), flag=flag_after, diag=diag)
+    log.add(i=idx, op="convert", pid=pid, fault=where, exc=exc_name, k=k, fired=bool(fired), raised=raised, ns=len(d), flag=flag_after, diag=diag)
 
 
 def _do_eager(w: World, op: dict, idx: int, log: EventLog, viol: list, stats: Counter, executed: list) -> None:
@@ -406,7 +421,7 @@ def _do_misc(w: World, op: dict, idx: int, log: EventLog, viol: list, stats: Cou
         if w.x64_ctx:
             # the user changed the GLOBAL flag inside a scoped override: that is what must be
             # in effect once the outermost scope is left
-            w.x64_ctx[0] = (w.x64_ctx[0][0], bool(op["value"]))
+            w.x64_ctx[0] = (w.x64_ctx[0][0], bool(op["value"]), w.x64_ctx[0][2])
         stats["set_x64"] += 1
     elif kind == "enter_x64_ctx":
         enable = getattr(jax, "enable_x64", None)
@@ -414,11 +429,11 @@ def _do_misc(w: World, op: dict, idx: int, log: EventLog, viol: list, stats: Cou
             before = bool(jax.config.jax_enable_x64)
             cmgr = enable(bool(op["value"]))
             cmgr.__enter__()
-            w.x64_ctx.append((cmgr, before))
+            w.x64_ctx.append((cmgr, before, bool(op["value"])))
             stats["x64_ctx_entered"] += 1
     elif kind == "exit_x64_ctx":
         if w.x64_ctx:
-            cmgr, before = w.x64_ctx.pop()
+            cmgr, before, _val = w.x64_ctx.pop()
             cmgr.__exit__(None, None, None)
             after = bool(jax.config.jax_enable_x64)
             stats["x64_ctx_exited"] += 1
@@ -451,6 +466,24 @@ def _do_misc(w: World, op: dict, idx: int, log: EventLog, viol: list, stats: Cou
             onnx_function(_nested_target)
             stats["nested_decorations"] += 1
     log.add(i=idx, op=kind, value=op.get("value"))
+
+
+def _flag_drift(w: World, idx: int, viol: list, stats: Counter, rops: list) -> None:
+    """Between two operations nobody but the user touches the flag: its effective value must be what
+    the user's own set_x64 / enable_x64 operations imply (a conversion whose restore step runs late -
+    e.g. when the caller drops the exception - is seen here)."""
+    import jax
+
+    now = bool(jax.config.jax_enable_x64)
+    exp = w.expected_flag()
+    stats["flag_checks_between_operations"] += 1
+    if now != exp:
+        viol.append({"sig": f"C13|x64_flag_drift|{exp}->{now}", "cls": "x64_flag_drift", "detail": {"expected_from_user_operations": exp, "effective": now, "before_operation_index": idx}, "replay_ops": list(rops)})
+        # resynchronise so that one leak is one report
+        try:
+            jax.config.update("jax_enable_x64", exp) if not w.x64_ctx else None
+        except Exception:
+            pass
 
 
 def _fresh(viol: list, plan: dict) -> bool:
@@ -564,6 +597,8 @@ def run(plan: dict) -> dict:
                 break
             i += 1
             continue
+        if not w.control and kind in ("convert", "eager", "sweep", "gc", "exit_x64_ctx", "enter_x64_ctx", "set_x64"):
+            _flag_drift(w, i, viol, stats, executed + [op])
         if kind == "convert":
             _do_convert(w, op, i, log, viol, stats, executed)
         elif kind == "eager":
